@@ -1,7 +1,8 @@
 """C13 - ill-formed schemas and models are rejected; accepted models always terminate.
 
 Spec: Lvs.tla (WellFormed, NoSelfSigner), LvsTree.tla (Sane = the documented sanity rules; the _match
-      machine with its step bound and termination), LvsEnum.tla, LvsJudge.tla (kinds "w" and "s").
+      machine with its step bound and termination; Part 4: PatternIsOwnSigner, NodeSignCycle), LvsEnum.tla,
+      LvsEnum13.tla (families RedefTemp, SharedSign), LvsJudge.tla (kinds "w" and "s") through LvsJudge13.tla.
 
 A  TLC: on every small sane tree the _match machine terminates (<>Done under weak fairness), never stalls
    before `cur is None`, and takes at most StepBudget iterations; on every single parent-link corruption of
@@ -13,7 +14,12 @@ B  spec -> code: (1) TLC enumerates two-rule schemas with undefined / temporary 
    SemanticError exactly on the ill-formed ones (and accept well-formed ones without a self-signing name
    pattern).  (2) TLC enumerates the small trees and all their parent-link corruptions with Sane; the real
    loader is run on the encoded tree: not Sane => LvsModelError; accepted => every match terminates within
-   the step budget.
+   the step budget.  (3) TLC enumerates (LvsEnum13) one rule identifier defined two or three times, every definition with
+   temporary patterns and constraints of its own (a constraint is judged against the definition it is written in -
+   first, middle or last), and pairs of rules that expand to the very same name pattern with every combination of
+   signers (a signing loop that closes only through the shared pattern, LvsTree!PatternIsOwnSigner, no rule
+   identifier being on a loop); compile_lvs + Checker must refuse exactly the ill-formed ones and the ones with such
+   a loop, and hand out a loadable model for the well-formed ones without a self-signing pattern.
 C  code -> spec: seeded well-formed schemas; (i) one injected static error of each kind at every position - every
    definition of a rule defined several times (twin definitions with the same name included), cycles once through
    the first and once through the last definitions - judged by TLC (WellFormed); (ii) every single-field corruption of the compiled binary model (version,
@@ -115,8 +121,105 @@ def msg_class(msg):
     return 'other'
 
 
-def injections(rules):
-    """One schema per (error kind x position). Yields (kind, position, rules')."""
+def _temps(r):
+    return [it['p'] for it in r['name'] if it['k'] == 'p' and it['p'][0] == '_']
+
+
+def _flat_text(rules, r, depth=0):
+    """the text of ONE expanded name of definition r (references replaced by the first definition of the rule
+    referred to, first alternative constraint set of each): (name, constraint set) or None."""
+    name, inlined = [], []
+    for it in r['name']:
+        if it['k'] != 'r':
+            name.append(dict(it))
+            continue
+        d = next((q for q in rules if q['id'] == it['r']), None)
+        sub = _flat_text(rules, d, depth + 1) if d is not None and depth < 6 else None
+        if sub is None:
+            return None
+        name += sub[0]
+        inlined += sub[1]
+    return name, inlined + (copy.deepcopy(r['cons'][0]) if r['cons'] else [])
+
+
+def shared_pattern_injections(rules, ids):
+    """Signing loops that close through a NAME PATTERN two rule identifiers share, no identifier being on a loop
+    (LvsTree!PatternIsOwnSigner).  For every definition D of a rule: a rule #zs with the same text (or with the text of
+    one expanded name of D) is added, and
+      -1   D <= #zs                      (the pattern signs itself)
+      -2   D <= #c, #c <= #zs            (#c: the next other rule)
+      -2r  #zs <= #c, #c <= D's rule     (the added rule is the signed one, D the key)
+    Whether the result has a loop (D with a temporary pattern: never the same pattern) is decided by the judge."""
+    for i, r in enumerate(rules):
+        if r['id'][1] == '_':
+            continue
+        texts = [('', copy.deepcopy(r['name']), copy.deepcopy(r['cons']))]
+        if any(it['k'] == 'r' for it in r['name']):
+            ft = _flat_text(rules, r)
+            if ft is not None and 1 <= len(ft[0]) <= 6:
+                texts.append(('@expanded', ft[0], [ft[1]] if ft[1] else []))
+        others = [q for q in ids if q != r['id']]
+        c = others[i % len(others)] if others else None
+        ic = next((k for k, q in enumerate(rules) if q['id'] == c), None)
+        for which, name, cons in texts:
+            x = copy.deepcopy(rules); x[i]['sign'] = x[i]['sign'] + ['#zs']; x.append(K.rule('#zs', name, cons))
+            yield 'pattern-signing-cycle-1' + which, (i,), x
+            if c is None or which:
+                continue
+            x = copy.deepcopy(rules); x[i]['sign'] = x[i]['sign'] + [c]; x[ic]['sign'] = x[ic]['sign'] + ['#zs']
+            x.append(K.rule('#zs', name, cons))
+            yield 'pattern-signing-cycle-2', (i, ic), x
+            x = copy.deepcopy(rules); x[ic]['sign'] = x[ic]['sign'] + [r['id']]; x.append(K.rule('#zs', name, cons, [c]))
+            yield 'pattern-signing-cycle-2r', (i, ic), x
+
+
+def foreign_temporary_injections(rules):
+    """A constraint on a temporary pattern that occurs in ANOTHER definition only (temporaries are local to the text of
+    one definition, Lvs!ConsOkIn): another definition of the same identifier, another rule, a definition of the same
+    identifier added for the purpose before / after the constraining one."""
+    for i, r in enumerate(rules):
+        own = set(_temps(r))
+        sib = sorted({t for k, q in enumerate(rules) if k != i and q['id'] == r['id'] for t in _temps(q)} - own)
+        oth = sorted({t for k, q in enumerate(rules) if q['id'] != r['id'] for t in _temps(q)} - own - set(sib))
+        for kind, ts in (('constrains-temporary-of-other-definition', sib), ('constrains-temporary-of-other-rule', oth)):
+            for t in ts[:1]:
+                x = copy.deepcopy(rules); x[i]['cons'].append([K.CONS(t, K.V('x'))]); yield kind, (i, 'newset'), x
+                if r['cons']:
+                    x = copy.deepcopy(rules); x[i]['cons'][0].append(K.CONS(t, K.V('x'))); yield kind, (i, 0), x
+        if r['id'][1] == '_':
+            continue
+        x = copy.deepcopy(rules); x[i]['cons'].append([K.CONS('_zz', K.V('x'))]); x.append(K.rule(r['id'], [K.P('_zz'), K.V('x')]))
+        yield 'constrains-temporary-of-later-definition', (i,), x
+        x = copy.deepcopy(rules); x[i]['cons'].append([K.CONS('_zz', K.V('x'))]); x.insert(0, K.rule(r['id'], [K.V('x'), K.P('_zz')]))
+        yield 'constrains-temporary-of-earlier-definition', (i,), x
+
+
+def variations(rules):
+    """WELL-FORMED variations (nothing is assumed here: the judge decides whether they are): a definition that
+    constrains a temporary pattern of its own (one is given such a constraint when it has temporaries but none is
+    constrained) gets a sibling definition of the same identifier that does NOT contain that temporary - the
+    temporaries replaced by a literal, or called otherwise - placed last or first.  Each definition keeps temporary
+    patterns and constraints of its own."""
+    for i, r in enumerate(rules):
+        ts = _temps(r)
+        if r['id'][1] == '_' or not ts:
+            continue
+        base = copy.deepcopy(rules)
+        if not any(c['pat'][0] == '_' for cs in r['cons'] for c in cs):
+            if base[i]['cons']:
+                for cs in base[i]['cons']:
+                    cs.append(K.CONS(ts[0], K.V('x'), K.V('y')))
+            else:
+                base[i]['cons'] = [[K.CONS(ts[0], K.V('x'), K.V('y'))]]
+        for how, sub in (('literal', lambda it: K.V('w')), ('renamed', lambda it: K.P('_zq'))):
+            name = [sub(it) if it['k'] == 'p' and it['p'][0] == '_' else dict(it) for it in r['name']]
+            x = copy.deepcopy(base); x.append(K.rule(r['id'], name)); yield 'redefined-after-' + how, (i,), x
+            x = copy.deepcopy(base); x.insert(0, K.rule(r['id'], name)); yield 'redefined-before-' + how, (i,), x
+
+
+def injections(rules, extra=True):
+    """One schema per (error kind x position). Yields (kind, position, rules').  extra: the kinds of
+    shared_pattern_injections and foreign_temporary_injections as well."""
     ids = []
     for r in rules:
         if r['id'][1] != '_' and r['id'] not in ids:
@@ -184,6 +287,9 @@ def injections(rules):
                     for p, q in ((ia, b), (ib, c), (ic, a)):
                         x[p]['sign'] = x[p]['sign'] + [ids[q]]
                     yield 'signing-cycle-3' + which, (ia, ib, ic), x
+    if extra:
+        yield from shared_pattern_injections(rules, ids)
+        yield from foreign_temporary_injections(rules)
 
 
 # ------------------------------------------------------------------ (ii) single-field corruptions of a binary model
@@ -342,6 +448,69 @@ def corruptions(wire):
                     yield 'option-emptyvalue+other', (i, j, a, b), mut(fev)
 
 
+# ------------------------------------------------------------------ TLC: judge (LvsJudge13) and enumeration (LvsEnum13)
+
+def judge13(ctx, recs, tag, procs=4):
+    """lvskit.judge with the module LvsJudge13 (kind "w" judged by J13wp: WellFormed, PatternIsOwnSigner, NodeSignCycle,
+    NoSelfSigner, Sane; every other kind by LvsJudge!Judge).  Returns {sid: verdict}."""
+    from concurrent.futures import ThreadPoolExecutor
+    if not recs:
+        return {}
+    cfg = K.scratch('LvsJudge13_%s.cfg' % tag)
+    tlc.write_cfg(cfg, spec=None, init='J13Init', next_='JNext', constants=K.JUDGE_CONSTS)
+    nsh = max(1, min(procs, len(recs) // 8 or 1))
+    files = []
+    for k in range(nsh):
+        fn = K.scratch('lvs-%s-%s-%d.ndjson' % (tag, ctx.tier, k))
+        with open(fn, 'w') as f:
+            for r in recs[k::nsh]:
+                f.write(json.dumps(r) + '\n')
+        files.append(fn)
+    with ThreadPoolExecutor(nsh) as ex:
+        results = list(ex.map(lambda fn: tlc.run('LvsJudge13', cfg, workers=1, heavy=False, env={'LVS_IN': fn},
+                                                 tag='lvsj13', timeout=3000), files))
+    out = {}
+    agg = tlc.TlcResult()
+    for r in results:
+        for v in K.parse_prints(r.out):
+            out[v[1]] = v[3]
+        agg.distinct += r.distinct
+        agg.generated += r.generated
+        agg.wall = max(agg.wall, r.wall)
+    ctx.add_tlc('LvsJudge13 %s (%d records, %d shards)' % (tag, len(recs), nsh), agg)
+    missing = [r['sid'] for r in recs if r['sid'] not in out]
+    if missing:
+        raise tlc.MachineryError('LvsJudge13 printed no verdict for records %s:\n%s' % (missing[:5], results[0].out[-2000:]))
+    return out
+
+
+def enum13_run(ctx, stride, fs, procs):
+    """LvsEnum13 (families RedefTemp, SharedSign) in `procs` interleaved shards -> printed <<"W13", ...>> tuples."""
+    from concurrent.futures import ThreadPoolExecutor
+    fs = min(stride, fs)
+
+    def one(j):
+        cfg = K.scratch('LvsEnum13_%s_%d.cfg' % (ctx.tier, j))
+        tlc.write_cfg(cfg, spec=None, init='E13Init', next_='ENext', constants={
+            'MaxNodes': 1, 'MaxLen': 0, 'Corrupt': '"none"', 'CountSteps': 'FALSE', 'DevPrebound': 'FALSE',
+            'Mode': '"c13"', 'Stride': stride * procs, 'Offset': ctx.seed % stride + j * stride,
+            'FocusStride': fs * procs, 'FocusOffset': ctx.seed % fs + j * fs})
+        return tlc.run('LvsEnum13', cfg, workers=1, heavy=False, tag='lvse13', timeout=3000)
+    with ThreadPoolExecutor(procs) as ex:
+        rs = list(ex.map(one, range(procs)))
+    agg = tlc.TlcResult()
+    items = []
+    for r in rs:
+        agg.distinct += r.distinct
+        agg.generated += r.generated
+        agg.wall = max(agg.wall, r.wall)
+        items += K.parse_prints(r.out, 'W13')
+    ctx.add_tlc('LvsEnum13 stride=%d focus=%d (%d inputs)' % (stride, fs, len(items)), agg)
+    if not items:
+        raise tlc.MachineryError('LvsEnum13 produced no input:\n%s' % rs[0].out[-2000:])
+    return items
+
+
 # ------------------------------------------------------------------ run
 
 def run(ctx):
@@ -410,10 +579,12 @@ def names_for(alpha, L, rng, k):
 
 def stage_b(ctx, procs):
     # ---- (1) ill-formed schema family
-    (names, items), (tnames, titems) = K.par([
+    (names, items), (tnames, titems), items13 = K.par([
         lambda: c11.enum_run(ctx, 'illformed', ctx.pick(19, 1), procs, tag='b', fs=8),     # TwinBad: every 8th
         lambda: c11.enum_run(ctx, 'trees', ctx.pick(5, 1), ctx.pick(2, procs), maxnodes=3, maxlen=2,
-                             corrupt='parent', tag='t')])
+                             corrupt='parent', tag='t'),
+        # (strides coprime to the sizes of the families' dimensions 2, 3, 4, 5: an index stride samples every dimension)
+        lambda: enum13_run(ctx, ctx.pick(37, 1), ctx.pick(7, 1), ctx.pick(1, procs))])
     seen = {}
     for it in items:
         rules, wf, why, noself = to_json(it[2]), it[3], it[4], it[5]
@@ -437,6 +608,41 @@ def stage_b(ctx, procs):
         if w not in seen:
             raise tlc.MachineryError('ill-formed family never exercises %s' % w)
     ctx.note('B: %d enumerated schemas executed on compile_lvs + Checker: %s' % (len(items), seen))
+    # ---- (3) a rule defined several times with temporaries of its own per definition; rules that share a name pattern
+    seen13 = {}
+    texts13 = [K.render(to_json(it[2])) for it in items13]
+    for it, text, (oc, msg, model, loadok) in zip(items13, texts13, K.build_many(texts13, procs)):
+        rules, wf, why, noself, own = to_json(it[2]), it[3], it[4], it[5], it[6]
+        fam = 'redefined-rule' if rules[0]['id'] == '#r1' else 'shared-pattern'
+        ctx.traces += 1
+        ctx.evaluations += 1
+        ctx.nt('Bx%d' % it[1])
+        if own and noself:
+            raise tlc.MachineryError('LvsTree!PatternIsOwnSigner without a loop in the coarse reading (Lvs!NoSelfSigner):\n' + text)
+        cls = why if not wf else 'pattern-is-own-signer' if own else 'well-formed' if noself else 'coarse-loop-only'
+        seen13[fam + '/' + cls] = seen13.get(fam + '/' + cls, 0) + 1
+        if not wf and oc != 'SemanticError':
+            ctx.violation('C13/compile_lvs/%s/ill-formed-not-rejected/%s/%s' % (fam, why, oc),
+                          'ill-formed schema (%s) gives %s %s:\n%s' % (why, oc, msg, text), {'kind': 'w', 'rules': rules})
+        elif wf and own and oc != 'SemanticError':
+            ctx.violation('C13/compile_lvs/%s/pattern-signing-cycle-not-rejected/%s' % (fam, oc),
+                          'a name pattern shared by two rules is its own signer (no rule identifier is on a loop), yet '
+                          'compile_lvs + Checker give %s %s:\n%s' % (oc, msg, text), {'kind': 'w', 'rules': rules})
+        elif wf and noself and oc != 'ok':
+            ctx.violation('C13/compile_lvs/%s/well-formed-rejected/%s/%s' % (fam, oc, msg_class(msg)),
+                          'well-formed schema without a self-signing name pattern rejected (%s: %s):\n%s' % (oc, msg, text),
+                          {'kind': 'w', 'rules': rules})
+        elif wf and noself and not loadok:
+            ctx.violation('C13/compile_lvs/%s/well-formed-model-not-loadable' % fam,
+                          'the saved model of a well-formed schema is refused by Checker.load:\n%s' % text,
+                          {'kind': 'w', 'rules': rules})
+        ctx.sample({'kind': 'B-schema13', 'text': text, 'reference': cls, 'outcome': oc}, limit=2)
+    for w in ('redefined-rule/well-formed', 'redefined-rule/bad-constraint-pattern', 'shared-pattern/well-formed',
+              'shared-pattern/pattern-is-own-signer', 'shared-pattern/signing-cycle'):
+        if w not in seen13:
+            raise tlc.MachineryError('LvsEnum13 sample never exercises %s (%s)' % (w, seen13))
+    ctx.note('B: %d enumerated schemas of the families RedefTemp / SharedSign executed on compile_lvs + Checker: %s'
+             % (len(items13), json.dumps(seen13, sort_keys=True)))
     # ---- (2) small trees and every parent-link corruption
     nacc = nins = 0
     for it in titems:
@@ -481,7 +687,7 @@ def stage_c(ctx, procs):
     gen = K.Gen(rng, p_forward=0.12, force_twin=0.5, foreign=0.3, flat=0.3)
     wrecs, srecs, meta = [], [], {}
     sid = 0
-    ninj = ncor = nterm = nlater = 0
+    ninj = ncor = nterm = nlater = nvar = 0
     kinds_seen = {}
     originals = []
     jobs = []                              # (sid, kind, pos, text, rules)
@@ -507,9 +713,13 @@ def stage_c(ctx, procs):
         if s >= nschema:
             continue
         multi = {r['id'] for k, r in enumerate(rules) if any(q['id'] == r['id'] for q in rules[:k])}
-        for kind, pos, bad in injections(rules):
+        # the kinds added in round 11 (shared name patterns, temporaries of other definitions, well-formed variations):
+        # every schema in the thorough tier, every second one in the quick tier
+        r11 = (not ctx.quick) or s % 2 == ctx.seed % 2
+        for kind, pos, bad in list(injections(rules, r11)) + (list(variations(rules)) if r11 else []):
             sid += 1
             ninj += 1
+            nvar += kind.startswith('redefined-')
             # the error sits in a second or later definition of a rule
             nlater += bool(pos) and all(isinstance(i, int) for i in pos[:1]) and any(
                 q['id'] == rules[pos[0]]['id'] for q in rules[:pos[0]]) and kind.split('@')[0] in (
@@ -591,10 +801,11 @@ def stage_c(ctx, procs):
              '%d step-bounded queries on accepted models' % (nschema, ninj, ncor, sum(1 for k, o in enumerate(originals) if k < ncorrupt and len(o[2].model.nodes) <= MAX_NODES_CORRUPTED), nterm))
     ctx.note('C: kinds exercised: %s' % json.dumps(kinds_seen, sort_keys=True))
     ctx.note('C: %d of the injected signing errors sit in a second or later definition of a rule defined several times' % nlater)
+    ctx.note('C: %d of the injected schemas are well-formed variations (a sibling definition without the constrained temporary)' % nvar)
     if nschema >= 10 and not nlater:
         raise tlc.MachineryError('C: no signing error was injected into a later definition of a rule (dimension vacuous)')
     ctx.extra['kinds_exercised'] = kinds_seen
-    ver = K.judge(ctx, wrecs + srecs, 'c13c', procs)
+    ver = judge13(ctx, wrecs + srecs, 'c13c', procs)
     stats = {}
     for rec in wrecs + srecs:
         cls = ver[rec['sid']][0]
@@ -605,7 +816,11 @@ def stage_c(ctx, procs):
         kind, pos, text, extra = meta[rec['sid']]
         if rec['kind'] == 'w':
             sig = 'C13/compile_lvs/%s' % cls
-            if cls.startswith('well-formed-rejected'):
+            if kind.startswith('redefined-'):              # a well-formed variation
+                sig = 'C13/compile_lvs/%s/%s' % (kind, cls)
+                if cls.startswith('well-formed-rejected'):
+                    sig += '/' + msg_class(extra)
+            elif cls.startswith('well-formed-rejected'):
                 sig += '/' + msg_class(extra)
             elif kind != 'original':
                 sig = 'C13/compile_lvs/%s/%s' % (kind, cls)
@@ -619,6 +834,46 @@ def stage_c(ctx, procs):
     for need in ('ok/ill-formed-rejected', 'ok/well-formed-accepted', 'ok/insane-rejected', 'ok/sane'):
         if need not in stats:
             raise tlc.MachineryError('vacuous: no record judged %s' % need)
+    # the dimensions of round 11 are exercised: injected loops through a shared name pattern are judged to BE such loops
+    # (not merely ill-formed for another reason), the variations are judged well-formed, foreign temporaries ill-formed
+    by_kind = {}
+    for rec in wrecs:
+        kind = meta[rec['sid']][0]
+        head = kind.split('@')[0]
+        head = 'redefined' if head.startswith('redefined-') else head
+        c = reference_class(ver[rec['sid']][0])
+        by_kind.setdefault(head, {})
+        by_kind[head][c] = by_kind[head].get(c, 0) + 1
+    ctx.extra['round11_reference'] = {k: by_kind[k] for k in sorted(by_kind)
+                                      if k.startswith(('pattern-', 'redefined', 'constrains-temporary-of'))}
+    ctx.note('C: what the reference says about the kinds added in round 11: %s'
+             % json.dumps(ctx.extra['round11_reference'], sort_keys=True))
+    if nschema >= 10:
+        # (quick tier: half a dozen schemas carry these kinds; the two that need a particular shape of schema - a second
+        # rule that can be put on the loop, a definition with a temporary pattern - are demanded of the thorough tier only)
+        needs = [('pattern-signing-cycle-1', 'pattern-is-own-signer'),
+                 ('constrains-temporary-of-later-definition', 'ill-formed/bad-constraint-pattern'),
+                 ('constrains-temporary-of-earlier-definition', 'ill-formed/bad-constraint-pattern')]
+        if not ctx.quick:
+            needs += [('pattern-signing-cycle-2', 'pattern-is-own-signer'), ('redefined', 'well-formed')]
+        for head, need in needs:
+            if need not in by_kind.get(head, {}):
+                raise tlc.MachineryError('vacuous: no %s schema is %s for the reference (%s)' % (head, need, by_kind.get(head)))
+
+
+def reference_class(cls):
+    """what the reference says about the INPUT of a kind-"w" record, whatever the library did with it
+    (LvsJudge13!J13wp): ill-formed/<why> | pattern-is-own-signer | coarse-loop-only | well-formed"""
+    p = cls.split('/')
+    if p[0] == 'ok':
+        p = p[1:]
+    if p[0] in ('ill-formed-rejected', 'ill-formed-not-rejected'):
+        return 'ill-formed/' + p[1]
+    if p[0] in ('pattern-signing-cycle-rejected', 'pattern-signing-cycle-not-rejected'):
+        return 'pattern-is-own-signer'
+    if p[0] in ('no-obligation-self-signer', 'accepted-model-has-signing-cycle'):
+        return 'coarse-loop-only'
+    return 'well-formed'
 
 
 def replay(ctx, path):
@@ -634,7 +889,8 @@ def replay(ctx, path):
         rec = {'sid': 1, 'kind': 'w', 'rules': obj['rules'], 'outcome': oc, 'loadok': ck is not None}
         if ck is not None:
             rec['model'] = K.dump_model(ck.model)
-        v = K.judge(ctx, [rec], 'c13r', 1)[1][0]
+            rec['loadok'] = load_outcome(ck.save())[0] == 'ok'
+        v = judge13(ctx, [rec], 'c13r', 1)[1][0]
         print('judge:', v)
         return 0 if v.startswith('ok/') else 1
     if k == 'wire':
